@@ -2403,6 +2403,25 @@ fn usefulness(patterns: Vec<PatternStack>, q: PatternStack, defs: &Defs) -> Vec<
             start: (0, 0),
             end: (0, 0),
         };
+        // A column in which no row discriminates (only bindings / wildcards) is not split into
+        // the constructors of its type: all of them would lead to the same sub-problem, and the
+        // number of sub-problems would grow exponentially with the number of such columns.
+        let is_binding = |stack: &PatternStack| {
+            matches!(stack.first(), Some(Pattern(PatternEnum::Identifier(_), _, _)))
+        };
+        if is_binding(&q) && patterns.iter().all(is_binding) {
+            let head = q[0].clone();
+            let tails: Vec<PatternStack> = patterns.iter().map(|p| p[1..].to_vec()).collect();
+            // (a single column that is matched by a binding is exhaustive)
+            if q.len() == 1 {
+                return vec![];
+            }
+            for mut witness in usefulness(tails, q[1..].to_vec(), defs) {
+                witness.insert(0, Pattern::typed(PatternEnum::Identifier("_".to_string()), head.2.clone(), meta));
+                witnesses.push(witness);
+            }
+            return witnesses;
+        }
         for ctor in split_ctor(&patterns, &q, defs) {
             let mut specialized = Vec::new();
             for p in patterns.iter() {
